@@ -60,6 +60,21 @@ def setup(tier):
     fixture.build()
 
 
+def _partial(data: Any, knob: int) -> Any:
+    """Partial data next to errors: root fields may be NAMED like the members of a response ("data", "errors",
+    "extensions" are legal field names), and the partial object may be small; whatever it is, it is what the error carries."""
+    v = (knob // 3) % 5
+    if not isinstance(data, dict) or v == 0:
+        return data
+    if v == 1:
+        return dict(data, data={"inner": [1, None], "id": "d1"})
+    if v == 2:
+        return dict(data, errors=[], data=None, extensions={"cost": 1})
+    if v == 3:
+        return {"data": data}
+    return {"data": {"data": 5}, "errors": "a root field called errors"}
+
+
 def make_body(cls: str, data: Any, knob: int) -> bytes:
     J = lambda o: json.dumps(o).encode()
     err1 = [{"message": "boom"}]
@@ -74,21 +89,21 @@ def make_body(cls: str, data: Any, knob: int) -> bytes:
     if cls == "empty_errors_only":
         return J({"errors": []})
     if cls == "errors_and_data":
-        return J({"errors": err1, "data": data})
+        return J({"errors": err1, "data": _partial(data, knob)})
     if cls == "errors_and_null_data":
         return J({"data": None, "errors": err1})
     if cls == "errors_only":
         return J({"errors": err1})
     if cls == "errors_full_members":
         return J({"errors": [{"message": "m1", "locations": [{"line": 2, "column": 3}], "path": ["a", 0, "b"],
-                              "extensions": {"code": "X", "n": {"k": 1}}, "extra": True}], "data": data})
+                              "extensions": {"code": "X", "n": {"k": 1}}, "extra": True}], "data": _partial(data, knob)})
     if cls == "errors_many":
         return J({"errors": [{"message": "e%d" % i, "path": ["p%d" % i]} if i % 2 else {"message": "e%d" % i} for i in range(2 + knob % 4)],
                   "data": [None, data][knob % 2]})
     if cls == "errors_same_message":
         return J({"errors": [{"message": "Not authorized", "path": ["users", 0, "email"]},
                              {"message": "Not authorized", "path": ["users", 2, "email"], "extensions": {"code": "FORBIDDEN"}},
-                             {"message": "Not authorized", "path": ["users", 0, "email"]}][: 2 + knob % 2], "data": data})
+                             {"message": "Not authorized", "path": ["users", 0, "email"]}][: 2 + knob % 2], "data": _partial(data, knob)})
     if cls == "errors_drawn":
         # spec-shaped errors (every entry is an object carrying a string message) with everything else the spec leaves
         # open drawn from the knob: empty / blank / long / repeated messages, members present, null or empty, odd extras
@@ -273,6 +288,7 @@ def draw_case(case, ch: Choices):
     cfg["preempt_den"] = ch.pick("cfg.pden", [1, 3, 9])
     cfg["debug_logging"] = ch.chance("cfg.debug_logging", 1, 4)
     cfg["user_warnings_as_errors"] = ch.chance("cfg.user_warnings_as_errors", 1, 4)
+    cfg["response_hook"] = ch.chance("cfg.response_hook", 1, 3)       # (a user-supplied http client with a logging hook)
     calls = []
     if p.get("mode") == "enum":
         status = p["status"]
@@ -457,6 +473,8 @@ def run_case(case, ch: Choices) -> RunResult:
         if r.outcome:
             res.bump("outcome." + (r.outcome[1] if r.outcome[0] == "exc" else "returned"))
     res.bump("variant." + cfg["variant"])
+    if cfg.get("response_hook") and not cfg["own_transport"]:
+        res.bump("env.http_client_with_response_logging_hook")
     res.bump("calls", len(recs))
     if info.get("switches"):
         res.bump("thread_switches", info["switches"])
